@@ -52,7 +52,7 @@ def gen_dir(ctx, idx, n):
 def gen_queries(rng, root):
     cols_pool = ["name", "size", "path", "ext", "dir", "mode", "is_dir", "hardlinks"]
     qs = []
-    for path in ("streamed", "ordered", "limited", "aggregate", "grouped"):
+    for path in ("streamed", "ordered", "ordered_ties", "ordered_limited", "limited", "aggregate", "grouped"):
         if path == "aggregate":
             cols = rng.sample(["count(*)", "sum(size)", "max(size)", "min(size)"], rng.randint(1, 3))
             tail = "from %s" % root
@@ -66,6 +66,10 @@ def gen_queries(rng, root):
             tail = "from %s" % root
             if path == "ordered":
                 tail += " order by name"
+            if path == "ordered_ties":          # few distinct key values: many rows tie on every ordering key
+                tail += rng.choice([" order by size", " order by size desc", " order by size, ext", " order by is_dir, size desc", " order by ext"])
+            if path == "ordered_limited":
+                tail += rng.choice([" order by size", " order by name desc", " order by ext, size"]) + " limit %d" % rng.choice([1, 2, 4, 9])
             if path == "limited":
                 tail += " limit %d" % rng.choice([1, 2, 3, 5])
         if rng.random() < 0.15 and path in ("streamed", "ordered"):
@@ -118,7 +122,7 @@ def run(ctx):
             ctx.violation("impl-violates-spec", "list output is not a whole number of rows", input=case)
             continue
         table = [vals[i:i + n] for i in range(0, len(vals), n)]
-        keys = [DISPLAY[c] if j["path"] in ("streamed", "ordered", "limited") else DISPLAY[c].lower() for c in j["cols"]]
+        keys = [DISPLAY[c] if j["path"] in ("streamed", "ordered", "ordered_ties", "ordered_limited", "limited") else DISPLAY[c].lower() for c in j["cols"]]
         unordered = j["path"] == "grouped"
         for f in FORMATS:
             q, r = outs[f]
@@ -264,7 +268,7 @@ def run(ctx):
     replay_generic_known(ctx, 'C09')
     ctx.coverage.update(
         evaluations=st["evaluations"], distinct_nontrivial=len(st["distinct"]), traces_validated_against_impl=st["agreed"],
-        rule="directories of files with adversarial names (every ASCII punctuation, control characters 1-31 incl. TAB/LF/CR, DEL, multi-byte and astral UTF-8) x 1-6 columns x six formats x five result paths (streamed, ordered, limited, single aggregate row, grouped rows) x 0/1/many rows: each output is decoded by the Coq decoder of its format and must equal the `into list` table (multiset for grouped rows, whose order is a HashMap's), and must equal byte for byte what model.Format emits for that table; plus the real ResultsWriter (harness) on synthetic tables. non-trivial = a table containing a quote, comma, TAB, CR/LF, markup or non-ASCII/control character",
+        rule="directories of files with adversarial names (every ASCII punctuation, control characters 1-31 incl. TAB/LF/CR, DEL, multi-byte and astral UTF-8) x 1-6 columns x six formats x seven result paths (streamed, ordered by a unique key, ordered with ties on every key, ordered with a limit, limited, single aggregate row, grouped rows) x 0/1/many rows: each output is decoded by the Coq decoder of its format and must equal the `into list` table (multiset for grouped rows, whose order is a HashMap's), and must equal byte for byte what model.Format emits for that table; plus the real ResultsWriter (harness) on synthetic tables. non-trivial = a table containing a quote, comma, TAB, CR/LF, markup or non-ASCII/control character",
         samples=st["samples"], distribution=dict(st["hist"]))
     return ctx.finish(trusted=["serde_json string escaping and csv-core quoting are transcribed in model/Format.v (validated byte for byte against the binary on this run)",
                                "file names are valid UTF-8 (the generator only creates such names)"])
